@@ -458,6 +458,75 @@ func RunDetPure(c *core.Ctx) {
 		if rel == "cmd/protoc-gen-go-pulsar" {
 			runArgsFlow(c, p, rel, src)
 		}
+		// a pointer (channel, function) handed to a formatting call is printed as an address, which differs from run to
+		// run: fmt.Sprint*/Errorf/Fprint* and the emitting P(...) must not receive one, unless its type says how it prints
+		nFmt, nPtr := 0, 0
+		eachFunc(p, func(fd *ast.FuncDecl) {
+			ast.Inspect(fd.Body, func(x ast.Node) bool {
+				call, ok := x.(*ast.CallExpr)
+				if !ok {
+					return true
+				}
+				obj := core.CalleeObj(info, call)
+				q := core.QualName(obj)
+				first := -1
+				switch q {
+				case "fmt.Sprint", "fmt.Sprintln":
+					first = 0
+				case "fmt.Sprintf", "fmt.Errorf", "fmt.Fprint", "fmt.Fprintln":
+					first = 1
+				case "fmt.Fprintf":
+					first = 2
+				default:
+					if isPMethod(obj) {
+						first = 0
+					}
+				}
+				if first < 0 || call.Ellipsis.IsValid() {
+					return true
+				}
+				nFmt++
+				for i := first; i < len(call.Args); i++ {
+					t := info.TypeOf(call.Args[i])
+					if t == nil {
+						continue
+					}
+					addr := false
+					switch u := t.Underlying().(type) {
+					case *types.Pointer:
+						// &{…} for structs, arrays, slices and maps; an address for everything else
+						switch u.Elem().Underlying().(type) {
+						case *types.Struct, *types.Array, *types.Slice, *types.Map:
+						default:
+							addr = true
+						}
+					case *types.Chan, *types.Signature:
+						addr = true
+					case *types.Basic:
+						addr = u.Kind() == types.UnsafePointer
+					}
+					if !addr {
+						continue
+					}
+					// types that print themselves
+					ms := types.NewMethodSet(t)
+					self := false
+					for _, mn := range []string{"String", "Error", "Format", "GoString"} {
+						if ms.Lookup(nil, mn) != nil || ms.Lookup(p.Types, mn) != nil {
+							self = true
+						}
+					}
+					if self {
+						continue
+					}
+					nPtr++
+					c.Fail("T.pure", fmt.Sprintf("%s.%s formats %s", rel, fnName(fd), clip(types.ExprString(call.Args[i]), 50)),
+						"a value of type "+t.String()+" is formatted into text: it prints as a memory address, which differs between runs (dereference it, or use its getter)", c.PosStr(p.Fset, call.Args[i].Pos()), src)
+				}
+				return true
+			})
+		})
+		c.Ok("T.pure", rel+" formatted values", fmt.Sprintf("%d formatting / emitting calls, %d with an argument that prints as an address", nFmt, nPtr), "", src)
 		c.Ok("T.pure", rel+" banned-reference scan", fmt.Sprintf("%d identifier uses resolved, %d banned", len(info.Uses), bad), "", src)
 		// --- package-level variable writes outside init / registration
 		pkgVars := map[types.Object]bool{}
